@@ -44,6 +44,10 @@ func constIntOf(pkg *types.Package, name string) (int64, bool) {
 
 func runC07(c *core.Ctx) {
 	c.MinInstances("C07-CONST", 9)
+	// "a message that fits is returned as one part": the single-or-split decision (C06-SINGLE: made on the encoded length of
+	// the codec that produced the octets, against that codec's limits)
+	c.MinInstances("C07-SINGLE", 3)
+	importRules(c, "C06", "C07-SINGLE", func(o core.Obligation) bool { return o.Rule == "C06-SINGLE" })
 	c.MinInstances("C07-TEMPLATE", 4)
 	c.MinInstances("C07-HDR", 2)
 	c.MinInstances("C07-NARROW", 4)
